@@ -9,7 +9,7 @@ spec->impl: MC_C05 enumerates every Rust type expression up to depth 2 (quick) /
 impl->spec: the observed target type tree of every position is an event judged by Trace_C05 (TypeExpr!Conf);
             random deeper trees (depth 4-5) extend the enumeration.
 """
-from .. import common, typecases
+from .. import common, observe, typecases
 from ..common import ToolError
 
 NEEDS = ["driver"]
@@ -78,6 +78,74 @@ def validate(chk, events, meta, spec, label):
     return idx, rejected
 
 
+def generic_orders(chk):
+    """MC_C05_generics: N type parameters used by the members in every order of first mention, in a struct, in a struct variant
+    (derived helper type: declaration + reference) and as arguments of a generic alias target."""
+    res = common.run_tlc("MC_C05_generics", cfg="MC_C05_generics", workers=2, timeout=300)
+    chk.add_tlc("MC_C05_generics", res)
+    if not res.replays:
+        raise ToolError("MC_C05_generics produced no cases")
+    wrapt = {"direct": lambda p: {"k": "param", "n": p}, "vec": lambda p: {"k": "vec", "e": {"k": "param", "n": p}},
+             "option": lambda p: {"k": "option", "e": {"k": "param", "n": p}}}
+    srcs, cases = [], []
+    for r in res.replays:
+        c, params, members = r["case"], r["params"], r["members"]
+        g = "<" + ", ".join(params) + ">"
+        trees = [(m["name"], wrapt[c["wrap"]](m["param"])) for m in members]
+        if c["host"] == "struct":
+            src = f"#[typeshare]\npub struct HostG{g} {{\n" + "".join(f"    pub {n}: {typecases.rust_text(t)},\n" for n, t in trees) + "}\n"
+        elif c["host"] == "vfield":
+            src = (f'#[typeshare]\n#[serde(tag = "t", content = "c")]\npub enum HostG{g} {{\n    Sv {{\n' +
+                   "".join(f"        {n}: {typecases.rust_text(t)},\n" for n, t in trees) + "    },\n    Unit,\n}\n")
+        else:
+            decl = "#[typeshare]\npub struct Tup" + g + " {\n" + "".join(f"    pub t{i}: {p},\n" for i, p in enumerate(params)) + "}\n"
+            target = {"k": "user", "n": "Tup", "args": [t for _, t in trees]}
+            src = decl + f"#[typeshare]\npub type HostG{g} = {typecases.rust_text(target)};\n"
+            trees = [("alias", target)]
+        srcs.append(src)
+        cases.append((c, trees))
+    results = observe.generate(srcs)
+    events, meta = [], []
+    for (c, trees), per, src in zip(cases, results, srcs):
+        for lang in common.LANGS:
+            r = per[lang]
+            if r["status"] != "ok":
+                continue          # refused by the backend (generics in Go), unreadable (C10) or a panic (C07)
+            obs = r["obs"]
+            if c["host"] == "alias_of_struct":
+                a = observe.find_def(obs, "HostG")
+                found = {"alias": a["target"]} if a and a["kind"] == "alias" else {}
+            elif c["host"] == "struct":
+                d = observe.find_def(obs, "HostG")
+                found = {m["key"]: (m["optional"], m["ty"]) for m in (d or {}).get("members", [])}
+            else:
+                ms = observe.struct_variant_members(lang, obs, ["HostG"], "Sv", "Sv")
+                found = {m["key"]: (m["optional"], m["ty"]) for m in (ms or [])}
+            for name, tree in trees:
+                pos = "alias" if name == "alias" else ("field" if c["host"] == "struct" else "vfield")
+                if name not in found:
+                    events.append(None)
+                    meta.append((lang, "generics", pos, tree, None, src, "position-missing", 0))
+                    continue
+                opt, ty = (None, found[name]) if name == "alias" else found[name]
+                events.append({"lang": lang, "pos": pos, "rust": tree, "default": False, "optional": bool(opt), "ty": ty, "prefix": "", "mapping": {},
+                               "aliases": typecases.aliases_of(obs), "vecu8": "", "noptr": False, "renames": typecases.RENAMES})
+                meta.append((lang, f"generics:{c['host']}", pos, tree, None, src, None, 0))
+    idx, rejected = validate(chk, events, meta, "Trace_C05", "generic-order")
+    for i in idx:
+        e, m = events[i], meta[i]
+        chk.judged((e["lang"], m[1], e["pos"], typecases.rust_text(e["rust"]), m[5]))
+        if i in rejected:
+            what = name_event(e, set())
+            if isinstance(what, str) and what.startswith("option-lost"):      # the listed TypeScript finding, met through a generic argument
+                chk.mismatch(f"C05/{m[0]}/anypos/anycfg/{what}", f"{m[0]} ({m[1]}): `{typecases.rust_text(m[3])}` translated to {e['ty']}",
+                             {"src": m[5], "lang": m[0], "host": m[1]}, "TypeExpr!Conf", e["ty"])
+                continue
+            chk.mismatch(f"C05/{m[0]}/{m[1]}/generic-parameter-order", f"{m[0]} ({m[1]}): `{typecases.rust_text(m[3])}` is generated as {e['ty']} once the "
+                         f"arguments of the reference are substituted into the declaration", {"src": m[5], "lang": m[0], "host": m[1]}, "TypeExpr!Conf", e["ty"])
+    chk.extra["generic_order_events"] = len(idx)
+
+
 def run(chk):
     thorough = chk.tier == "thorough"
     chk.rule = ("spec->impl: every Rust type expression to depth " + ("3" if thorough else "2") + " (MC_C05) x positions {field, struct-variant field, newtype "
@@ -133,9 +201,14 @@ def run(chk):
                          f"{lang} ({cname}, {pos}): `{typecases.rust_text(tree)}` translated to {e['ty']}", {"tree": tree, "lang": lang, "config": cname, "pos": pos},
                          "TypeExpr!Conf", e["ty"])
     chk.extra["trace_events"] = len(idx)
+    generic_orders(chk)
 
 
 def replay(chk, rec):
+    if "src" in rec["case"]:
+        generic_orders(chk)
+        chk.mismatches = {k: v for k, v in chk.mismatches.items() if k == rec["signature"]}
+        return
     c = rec["case"]
     events, meta = typecases.run_trees(chk, [(c["tree"], None, False)], configs=(c["config"],))
     keep = [(e, m) for e, m in zip(events, meta) if m[0] == c["lang"] and m[2] == c.get("pos", m[2])]
